@@ -24,7 +24,8 @@ enum Rec {
     Other(&'static str),
 }
 
-struct Recorder;
+/// records the one call a value makes on the serializer; `.0` is what `is_human_readable()` answers
+struct Recorder(bool);
 
 #[derive(Debug)]
 struct RecErr(String);
@@ -58,6 +59,9 @@ impl serde::Serializer for Recorder {
     type SerializeStructVariant = serde::ser::Impossible<Rec, RecErr>;
     fn serialize_str(self, v: &str) -> Result<Rec, RecErr> {
         Ok(Rec::Str(v.to_string()))
+    }
+    fn is_human_readable(&self) -> bool {
+        self.0
     }
     other!(serialize_bool(bool), serialize_i8(i8), serialize_i16(i16), serialize_i32(i32), serialize_i64(i64), serialize_u8(u8), serialize_u16(u16),
         serialize_u32(u32), serialize_u64(u64), serialize_f32(f32), serialize_f64(f64), serialize_char(char), serialize_bytes(&[u8]));
@@ -138,9 +142,12 @@ fn check_text(t: &str) -> Result<(), String> {
         if jl != js {
             return Err(format!("serde_json::to_string: LeanString {jl}, String {js}"));
         }
-        let rec = lean.serialize(Recorder).map_err(|e| e.to_string())?;
-        if rec != Rec::Str(string.clone()) {
-            return Err(format!("Serialize called {rec:?} instead of one serialize_str({t:?})"));
+        for human in [true, false] {
+            let rec = lean.serialize(Recorder(human)).map_err(|e| e.to_string())?;
+            let want = string.serialize(Recorder(human)).map_err(|e| e.to_string())?;
+            if rec != want || rec != Rec::Str(string.clone()) {
+                return Err(format!("Serialize (is_human_readable = {human}) called {rec:?}; String calls {want:?}"));
+            }
         }
         // a truncated shared handle serialises its own text
         let mut longer = LeanString::from(format!("{t}\"tail").as_str());
